@@ -49,6 +49,11 @@ fn truncate_str_impl<'a>(
     // otherwise narrow graphemes of later text sections would be appended after the gap.
     let mut text_is_cut = false;
     for (t, is_ansi) in items {
+        if text_is_cut && fill2w.is_none() {
+            // `truncate_str_short` promises a prefix of the input: nothing may follow the cut,
+            // not even escape sequences (callers split the input at the length of the result).
+            break;
+        }
         if !is_ansi {
             if text_is_cut {
                 continue;
